@@ -10,6 +10,9 @@ require (
 	pgregory.net/rapid v1.3.0
 )
 
-require github.com/256dpi/mercury v0.2.0 // indirect
+require (
+	github.com/256dpi/mercury v0.2.0 // indirect
+	github.com/jpillora/backoff v0.0.0-20170918002102-8eab2debe79d // indirect
+)
 
 replace github.com/256dpi/gomqtt => /repo
